@@ -980,7 +980,13 @@ func execSegment(sc *ck.Script, i int, p *prepared) bool {
 	doneSteps := nm.Project(done, map[int64]string{})
 	seg.J = len(doneSteps)
 	state := ck.ObserveDir(p.base, sc, p.sizes)
-	fails := oracle(p.base, trunc, before, after)
+	oracleRoot := p.base
+	if seg.Final.Kind == "init" {
+		// the oracle of an initialisation crash completes the initialisation: not on the directory
+		// the script continues with
+		oracleRoot = filepath.Join(p.fresh("o"))
+	}
+	fails := oracle(oracleRoot, trunc, before, after)
 	id := run.NewID()
 	judged := strings.HasPrefix(stepsText(recSteps)+" ", stepsText(doneSteps)+" ") || len(doneSteps) == 0
 	if judged {
@@ -1193,7 +1199,7 @@ func killAt(sc *ck.Script, scriptPath, root string, win []ck.Event, k int, sizes
 func oracle(root string, sc *ck.Script, before, after *sim) []failure {
 	var fails []failure
 	add := func(sig, f string, a ...any) { fails = append(fails, failure{sig, fmt.Sprintf(f, a...)}) }
-	if sc.Final.Kind == "init" && len(sc.Pre) == 0 {
+	if sc.Final.Kind == "init" {
 		// a crash during the very first oci.New: whatever it left, New must succeed now
 		// and give the empty store (index.json may legitimately not exist yet)
 		st, err := oci.New(root)
@@ -1477,12 +1483,23 @@ func main() {
 			runGeneratedIn(r, sc, r.Intn(6), kind, run.Thorough(), 0)
 		}
 	}
-	// the initialisation itself, killed at every system call
-	func() {
-		p := newPrepared()
-		defer p.close()
-		runMain(&ck.Script{Blobs: universe(r, false), Final: ck.Op{Kind: "init"}}, p, -1, true)
-	}()
+	// the initialisation itself, killed at every system call; then again on what one, two, three
+	// interrupted attempts left behind
+	for n := 0; n <= run.Scale(2, 3); n++ {
+		func() {
+			sc := &ck.Script{Blobs: universe(r, false), Final: ck.Op{Kind: "init"}}
+			p := newPrepared()
+			defer p.close()
+			for i := 0; i < n; i++ {
+				sc.Pre = append(sc.Pre, ck.Segment{Final: ck.Op{Kind: "init"}, K: r.Intn(1000)})
+				if !execSegment(sc, i, p) {
+					return
+				}
+			}
+			run.Count("init-after-interrupted-attempts:" + strconv.Itoa(n))
+			runMain(sc, p, -1, true)
+		}()
+	}
 	// Delete with AutoGC (cascades), GC and reopen, on the universe with referrers
 	nGC := run.Scale(2, 24)
 	for h := 0; h < nGC; h++ {
